@@ -53,7 +53,24 @@ type henc struct {
 	strs  map[string]struct{}
 	ints  map[int64]struct{}
 	uints map[uint64]struct{}
+	reg   strfmt.Registry // the registry the oracle tables are computed with (the one the call is given)
 }
+
+// a caller's registry: it knows "verif-even" (strings of even length) and "uuid", and nothing else
+type evenStr string
+
+func (e evenStr) String() string                { return string(e) }
+func (e evenStr) MarshalText() ([]byte, error)  { return []byte(e), nil }
+func (e *evenStr) UnmarshalText(b []byte) error { *e = evenStr(b); return nil }
+
+var customRegistry = func() strfmt.Registry {
+	r := strfmt.NewSeededFormats(nil, nil)
+	var e evenStr
+	r.Add("verif-even", &e, func(s string) bool { return len(s)%2 == 0 })
+	var u strfmt.UUID
+	r.Add("uuid", &u, func(s string) bool { return strfmt.Default.Validates("uuid", s) })
+	return r
+}()
 
 func unhex(s string) string { b, _ := hex.DecodeString(s); return string(b) }
 func tohex(s string) string { return hex.EncodeToString([]byte(s)) }
@@ -189,13 +206,17 @@ func (e *henc) horacles(patterns, formats []string) string {
 			}
 		}
 	}
+	reg := e.reg
+	if reg == nil {
+		reg = strfmt.Default
+	}
 	for _, f := range formats {
-		if !strfmt.Default.ContainsName(f) {
+		if !reg.ContainsName(f) {
 			continue
 		}
 		fknown = append(fknown, strconv.Itoa(e.in.id(f)))
 		for _, s := range strs {
-			if strfmt.Default.Validates(f, s) {
+			if reg.Validates(f, s) {
 				fcheck = append(fcheck, fmt.Sprintf("(%d %d)", e.in.id(f), e.in.id(s)))
 			}
 		}
@@ -316,8 +337,13 @@ func h14Run(in *bufio.Scanner, out *bufio.Writer) {
 			f, s := unhex(c.Str2), unhex(c.Str)
 			fmts = []string{f}
 			args = fmt.Sprintf("%d %d", e.in.id(f), e.sid(s))
+			var reg strfmt.Registry = strfmt.Default
+			if c.Op == "custom" {
+				reg = customRegistry
+			}
+			e.reg = reg
 			call = func() (int, int32) {
-				x := validate.FormatOf("p", "query", f, s, strfmt.Default)
+				x := validate.FormatOf("p", "query", f, s, reg)
 				if x == nil {
 					return 0, 0
 				}
@@ -384,6 +410,17 @@ func (g *hgen) scalar() hv {
 		lit := g.pick(lits)
 		if k == "int8" && (lit == "200" || lit == "255") {
 			lit = "-56"
+		}
+		if g.rng.Intn(4) == 0 { // the edges of the kind: where a conversion to another kind wraps around
+			edges := map[string][]string{
+				"int8": {"-1", "-128", "127"}, "int16": {"-1", "-32768", "32767"}, "int32": {"-1", "-2147483648", "2147483647"},
+				"int64": {"-1", "-9223372036854775808", "9223372036854775807"}, "int": {"-1", "-9223372036854775808", "9223372036854775807"},
+				"uint8": {"255", "128"}, "uint16": {"65535", "32768"}, "uint32": {"4294967295", "2147483648"},
+				"uint64": {"18446744073709551615", "9223372036854775808"}, "uint": {"18446744073709551615", "9223372036854775808"},
+			}
+			if l, ok := edges[k]; ok {
+				lit = g.pick(l)
+			}
 		}
 		return hv{K: k, V: lit}
 	}
@@ -480,6 +517,29 @@ func h14Gen(seed int64, n int, tier string, out *bufio.Writer) {
 			if rng.Intn(15) == 0 {
 				en = hv{K: "str", V: g.str()} // not a slice at all
 			}
+			if rng.Intn(6) == 0 {
+				// a value and an enumeration member of different integer kinds whose bit patterns coincide after a conversion
+				// (a negative signed value against the unsigned value it wraps to, in every combination of widths)
+				signed := map[string][]string{"int8": {"-1", "-128"}, "int16": {"-1", "-32768"}, "int32": {"-1", "-2147483648"},
+					"int64": {"-1", "-9223372036854775808"}, "int": {"-1"}}
+				wraps := map[string]map[string]string{
+					"-1":                   {"uint8": "255", "uint16": "65535", "uint32": "4294967295", "uint64": "18446744073709551615", "uint": "18446744073709551615"},
+					"-128":                 {"uint8": "128", "uint16": "65408", "uint32": "4294967168", "uint64": "18446744073709551488", "uint": "18446744073709551488"},
+					"-32768":               {"uint8": "0", "uint16": "32768", "uint32": "4294934528", "uint64": "18446744073709518848", "uint": "18446744073709518848"},
+					"-2147483648":          {"uint8": "0", "uint16": "0", "uint32": "2147483648", "uint64": "18446744071562067968", "uint": "18446744071562067968"},
+					"-9223372036854775808": {"uint8": "0", "uint16": "0", "uint32": "0", "uint64": "9223372036854775808", "uint": "9223372036854775808"},
+				}
+				sk := g.pick([]string{"int8", "int16", "int32", "int64", "int"})
+				sv := g.pick(signed[sk])
+				uk := g.pick([]string{"uint8", "uint16", "uint32", "uint64", "uint"})
+				a, b := hv{K: sk, V: sv}, hv{K: uk, V: wraps[sv][uk]}
+				if rng.Intn(2) == 0 {
+					a, b = b, a
+				}
+				v = a
+				c.Val = &v
+				en = hv{K: "slice", E: "iface", L: []hv{b}}
+			}
 			c.Enum = &en
 			c.CS = rng.Intn(2) == 0
 		case "MinItems", "MaxItems":
@@ -498,7 +558,10 @@ func h14Gen(seed int64, n int, tier string, out *bufio.Writer) {
 			c.Op = g.pick([]string{"request", "request", "response", "none"})
 		case "FormatOf":
 			c.Str = g.str()
-			c.Str2 = tohex(g.pick([]string{"date", "email", "uuid", "nope", "", "date-time"}))
+			c.Str2 = tohex(g.pick([]string{"date", "email", "uuid", "nope", "", "date-time", "verif-even"}))
+			if rng.Intn(3) == 0 {
+				c.Op = "custom"
+			}
 		}
 		_ = enc.Encode(c)
 	}
